@@ -44,8 +44,15 @@ def generate(rng, opts):
         t = lg.gen_type(r, 0, opts)
         n = r.choice([0, 0, 1, 1, 2, 3, 3, 5, 8])
         roots.append({"type": t, "spec": lg.SpecGen(r, opts).array(t, n)})
+    if r.random() < 0.08:
+        # one root is inconsistent by construction (a hand-built or damaged layout): only the validity check, printing
+        # and conversion are promised for it, and they must return or raise
+        i = r.randrange(nroots)
+        bad = lg.make_invalid(r, roots[i]["spec"])
+        if bad is not None:
+            roots[i] = {"type": roots[i]["type"], "valid_spec": roots[i]["spec"], "spec": bad[0], "invalid": bad[1]}
     enabled = {k: r.random() < 0.7 for k in O.KINDS}
-    infos = [spec_info(x["spec"]) for x in roots]
+    infos = [spec_info(x.get("valid_spec", x["spec"])) for x in roots]
     events = []
     nops = r.randint(3, opts.get("pool_max_ops", 14))
     p_drop = r.choice([0.0, 0.05, 0.15])
@@ -127,6 +134,8 @@ def first_difference(a, b):
 
 def max_list_len(v):
     """the longest list anywhere in a decoded value (the operand size that decides the cost of combinations)"""
+    if isinstance(v, (str, bytes)):
+        return len(v)          # a string is a list of characters for axis=-1
     if isinstance(v, list):
         return max([len(v)] + [max_list_len(x) for x in v])
     if isinstance(v, tuple) and v and v[0] == "rec":
@@ -175,6 +184,26 @@ def execute(node, case, rec, opts):
     realized = []
     for ri, root in enumerate(case["roots"]):
         rz = lg.Realized()
+        if root.get("invalid"):
+            try:
+                h = lg.realize(node, root["spec"], rz)
+            except NodeError as x:
+                if x.cls not in ORDINARY:
+                    raise Violation("robustness", "non_ordinary_exception", {"building": root["invalid"], "error": [x.cls, x.msg[:200]]})
+                raise Discard("the constructor refuses this inconsistent layout: %s" % root["invalid"])
+            rec.fault("inconsistent_layout:" + root["invalid"])
+            for what in (3, 2, 5, 0, 1):
+                try:
+                    node.text(h, what)
+                except NodeError as x:
+                    if x.cls not in ORDINARY:
+                        raise Violation("robustness", "non_ordinary_exception_on_invalid_array",
+                                        {"root": ri, "invalid": root["invalid"], "what": what, "error": [x.cls, x.msg[:200]]})
+            rec.probe("check_print_convert_on_inconsistent_layout")
+            slots.append(Slot(h, None, root=ri))
+            slots[-1].unreadable = True
+            realized.append(rz)
+            continue
         h = lg.realize(node, root["spec"], rz)
         want = lg.value_of(root["spec"])
         err = node.text(h, 3)
@@ -481,7 +510,10 @@ def signature(case):
 
 
 def describe(case):
-    return {"roots": [{"type": r["type"], "value": vm.to_jsonable(lg.value_of(r["spec"])), "classes": lg.node_classes(r["spec"])}
+    return {"roots": [{"type": r["type"], "value": vm.to_jsonable(lg.value_of(r.get("valid_spec", r["spec"]))),
+                       "classes": lg.node_classes(r["spec"])} if not r.get("invalid") else
+                      {"type": r["type"], "made_inconsistent": r["invalid"], "classes": lg.node_classes(r["spec"]),
+                       "value_before": vm.to_jsonable(lg.value_of(r["valid_spec"]))}
                       for r in case["roots"]],
             "events": case["events"], "corrupt": case["corrupt"]}
 
@@ -505,6 +537,8 @@ def shrink_candidates(case):
                 yield d
     # simpler roots: fewer elements
     for i, r in enumerate(case["roots"]):
+        if r.get("invalid"):
+            continue        # (the inconsistency is tied to the shape of this spec)
         for sub in simpler_specs(r["spec"]):
             d = copy.deepcopy(case); d["roots"][i]["spec"] = sub; yield d
     for i, e in enumerate(ev):
